@@ -302,6 +302,26 @@ def destroy_order(prog, res):
     res.check(ok, "T2.destroy-after-join", "POOL_resize_internal:copy-before-free", r.loc,
               "old thread handles copied before the old array is freed",
               "the old handle array is freed before (or without) being copied")
+    # handle bookkeeping: the field bounding POOL_join's loop (number of live handles) is the one
+    # that sizes the copy and from which the creation loop continues
+    jf = set()
+    for bid, cond, t, fl in j.branches():
+        cc = strip_casts(j.resolve_x(cond))
+        if cc.get("k") == "bin" and cc["op"] in ("<", "<=", "!="):
+            jf |= {x["f"] for x in walk(cc) if x.get("k") == "mem" and x.get("rec") == "POOL_ctx_s"}
+    szf = {x["f"] for x in walk(cp[0][2]["a"][2]) if x.get("k") == "mem"} if cp else set()
+    res.check(len(jf) == 1 and szf == jf, "T9.handle-bookkeeping", "POOL_resize_internal:copy-all-live-handles", r.loc,
+              "the copy is sized by %s, the field bounding POOL_join's loop" % sorted(jf),
+              "POOL_join joins %s handles but the resize copies %s handles: live workers would never be joined"
+              % (sorted(jf), sorted(szf)))
+    loopvars = [v for v, defs in r.local_defs().items()
+                if any(d is not None and {x["f"] for x in walk(d) if x.get("k") == "mem"} == jf for d in defs)]
+    crt_idx = set()
+    for b, i, n in r.calls("pthread_create"):
+        crt_idx |= {x["n"] for x in walk(n["a"][0]) if x.get("k") == "ref" and x.get("rk") in ("l", "sl")}
+    res.check(bool(set(loopvars) & crt_idx), "T9.handle-bookkeeping", "POOL_resize_internal:create-from-capacity", r.loc,
+              "new threads are created from index %s onwards" % sorted(jf),
+              "the creation loop does not start at %s: handles would be overwritten or left unset" % sorted(jf))
     # partial failure records threadCapacity = threadId
     crt = r.calls("pthread_create")
     okp = False
